@@ -150,11 +150,7 @@ def build_batch(ctx, tag, cases, kinds_bin, want_ref=True):
     p = sh([kinds_bin, os.path.join(d, "main.go"), os.path.join(d, "read_llgo.go")])
     if p.returncode != 0:
         raise HarnessBuildError("kinds harness failed on the generated program:\n" + (p.stdout + p.stderr)[-3000:])
-    facts = {}
-    for ln in p.stdout.split("\n"):
-        f = ln.split()
-        if len(f) == 7 and f[0] == "D":
-            facts[int(f[3])] = (int(f[2]), f[4], int(f[5]), int(f[6]))
+    facts = dg.parse_facts(p.stdout)
     bins = {}
     for opt in ("-O0", "-O2"):
         t = time.time()
@@ -193,7 +189,7 @@ def run_all(bins, n, workers=8):
 
 def run(ctx, args):
     quick = ctx.tier == "quick"
-    n_gen = int(os.environ.get("VERIF_C04_N", "180" if quick else "1500"))
+    n_gen = int(os.environ.get("VERIF_C04_N", "140" if quick else "1500"))
     rng = ctx.rng
     st = lean_check(ctx, ["LlgoVerif.Props.C04"], ["LlgoVerif/Props/C04.lean"],
                     extra_files=["LlgoVerif/Model/Defer.lean", "LlgoVerif/Spec/DeferSem.lean", "LlgoVerif/Lemmas/Defer.lean"],
@@ -215,7 +211,12 @@ def run(ctx, args):
     # {top level, taken if, skipped if, for of 0 / 2 iterations} x {with, without argument node} x fault position
     enum = dg.enum_cases(1 if quick else int(os.environ.get("VERIF_C04_ENUM", "3")))
     if quick:
-        enum += rng.sample(dg.enum_cases(3), 40)
+        enum += rng.sample(dg.enum_cases(3), 30)
+    # conditional explicit panic / fault / return between defer statements (branch taken and not taken), and owner
+    # functions of range-over-func defers (>= 1 range-over-func loop that defers, mixed with own and ordinary loop defers)
+    enum += dg.enum_panic_branch()
+    rf3 = dg.enum_rangefunc(3)
+    enum += dg.enum_rangefunc(2) + (rng.sample(rf3, 20) if quick else rf3)
     allc = corpus + enum + gen
     if getattr(args, "replay", None):
         # ./check C04 --replay replay/C04/<key>.json : run only the recorded layout (plus the corpus witnesses)
@@ -248,11 +249,19 @@ def run(ctx, args):
         progs = []
         lines = []
         for ci, case in enumerate(cases):
-            lay, index, problems = dg.layouts(case, facts)
+            lay, index, entry, problems, mism = dg.layouts(case, facts)
             if problems:
                 ctx.log("layout problems in", case["name"], problems[:3])
-            prog = dg.encode(case, lay, index)
-            progs.append((prog, lay))
+                stats["layout_problems"] = stats.get("layout_problems", 0) + 1
+            prog = dg.encode(case, lay, index, entry)
+            progs.append((prog, lay, mism))
+            if mism:
+                # cl/blocks classified a block against its definition (checked with go/ssa's own dominator tree / CFG)
+                stats["kind_mismatches"] = stats.get("kind_mismatches", 0) + len(mism)
+                ctx.report("defer:kinds:" + mism[0]["why"],
+                           "cl/blocks.Infos gives a defer statement a kind its block does not have (%s)" % mism[0]["why"],
+                           {"case": case["name"], "layout": json.loads(dg.dumps(case)), "mismatches": mism,
+                            "how": "render with harness/c04/defergen.py render_program([layout]); run the kinds harness (harness/c04/main.go) on main.go"})
             lines.append("model 0 %d %d %s" % (tls_fix, FUEL, prog))
             lines.append("model 1 %d %d %s" % (tls_fix, FUEL, prog))
             lines.append("spec %d %s" % (FUEL, prog))
@@ -260,7 +269,7 @@ def run(ctx, args):
         if len(ans) != len(lines):
             raise RuntimeError("modeld_c04 died: %d/%d answers\n%s" % (len(ans), len(lines), err[-2000:]))
         for ci, case in enumerate(cases):
-            prog, lay = progs[ci]
+            prog, lay, mism = progs[ci]
             m0, m2, sp = parse_answer(ans[3 * ci]), parse_answer(ans[3 * ci + 1]), parse_answer(ans[3 * ci + 2])
             real = {"-O0": outs["-O0"][ci], "-O2": outs["-O2"][ci]}
             ref = outs["ref"][ci]
@@ -270,8 +279,8 @@ def run(ctx, args):
             for f, ss in lay.items():
                 for s in ss:
                     nd += 1
-                    stats["kinds"][s["kind"]] += 1
-                    stats["with_node"] += 1 if (s["kind"] == "loop" or s["clo"] or s["nargs"]) else 0
+                    stats["kinds"][s["kind"]] = stats["kinds"].get(s["kind"], 0) + 1
+                    stats["with_node"] += 1 if (s["kind"] in ("loop", "x") or s["clo"] or s["nargs"]) else 0
             stats["defer_statements"] += nd
             stats["model_status"][m0[0].split(":")[0]] = stats["model_status"].get(m0[0].split(":")[0], 0) + 1
             stats["spec_status"][sp[0].split(":")[0]] = stats["spec_status"].get(sp[0].split(":")[0], 0) + 1
@@ -299,7 +308,10 @@ def run(ctx, args):
                 # (3) the real code violates the property on this layout
                 stats["llgo_differs_from_go"] += 1
                 key = None
-                if model_ok:
+                # a known class explains a failure only when the model reproduces it AND the static classification of the
+                # layout is the one the definition gives (an `always` defer skipped by a panicking call or fault in
+                # straight-line code - not a defer that cl/blocks wrongly made `always`)
+                if model_ok and not mism:
                     for fl, k in CLASS:
                         if fl in flags:
                             key = k
@@ -334,7 +346,8 @@ def run(ctx, args):
         "static layout (kind/closure/nargs/compile order of every defer statement) read from the REAL cl/blocks.Infos + go/ssa by harness/c04/main.go",
         "Lean spec of Go's defer/panic/recover rule validated against the reference toolchain (go1.24 `go build` of the same program) on every layout",
         "Python generator/printer harness/c04/defergen.py (Go text and executed-path events of a layout are produced by the same walk)",
-        "Goexit and range-over-func defer stacks are NOT executed (no `runtime` import possible in llgo-compiled programs here)",
+        "runtime.Goexit is NOT executed (no `runtime` import possible in llgo-compiled programs here)",
+        "block kinds of cl/blocks.Infos are compared with go/ssa's dominator tree / CFG by the kinds harness (always => dominates every function end, loop <=> on a cycle)",
     ]
     ctx.assumptions += ["conditions and loop counts of a layout are fixed per case (read from package-level variables), so the executed path is known to the generator",
                         "model `ub` (node decoded with another statement's layout, longjmp into a dead frame) matches any continuation of the real output"]
